@@ -21,6 +21,8 @@ CLAIMED = {
          "ordering/value-flow/typestate rules + numeric abstract interpretation over clang CFGs"),
  "C07": ("Static rules over source/task_scheduler.c (and the library-wide WHO query): only aws_task_run invokes task functions and only the run loop / cancel call it; scheduled cleared before invocation and nothing touched after; every move of a timed task is dominated by timestamp <= current_time of that task and the move loops are left only when nothing is due; private FIFO batch; schedule and cancel step order; has-tasks flag and time; plain timestamp comparator; plus the C06 handle rules the scheduler's cancel relies on. Exactly-once over re-entrant programs is not decided as a run-time fact.",
          "guard-dominance, ordering and typestate rules over clang CFGs"),
+ "C18": ("Static rules over linked_hash_table.c and the three cache files: eviction victim provenance per policy (value-flow from the iteration list's front / back->prev of the same table to the removed key), eviction exactly on count > max after the insertion and under no other condition, vtable policy wiring (LRU lookups refresh, FIFO/LIFO do not), put's overwrite order and new-node fields, element destructor order and destructor wiring. Policy outcomes over histories are not decided.",
+         "value-flow provenance, guard-dominance and ordering rules over clang CFGs + constant vtable tables"),
 }
 NA_DEFAULT = "check not built yet in this commit (see DESIGN.md section 9 build order)"
 NA = {}
